@@ -196,6 +196,11 @@ class MiniEval:
             if not isinstance(base, Obj):
                 raise Unsupported(f'attribute store on {type(base).__name__}')
             object.__setattr__(base, t.attr, v)
+        elif isinstance(t, ast.Subscript):
+            base = self.expr(t.value, env)
+            if type(base) not in (dict, list):
+                raise Unsupported(f'subscript store on {type(base).__name__}')
+            base[self.expr(t.slice, env)] = v
         elif isinstance(t, (ast.Tuple, ast.List)):
             vals = list(v)
             if len(vals) != len(t.elts):
@@ -429,7 +434,15 @@ class MiniEval:
                 return getattr(recv, f.attr)(*args, **kwargs)
             if isinstance(recv, dict) and f.attr in ('items', 'keys', 'values', 'get'):
                 return getattr(recv, f.attr)(*args, **kwargs)
-            if isinstance(recv, (set, frozenset)) and f.attr in ('union', 'intersection', 'difference', 'issubset'):
+            if isinstance(recv, (set, frozenset)) and f.attr in ('union', 'intersection', 'difference', 'issubset', 'copy'):
+                return getattr(recv, f.attr)(*args, **kwargs)
+            if type(recv) is set and f.attr in ('add', 'discard', 'remove', 'update', 'clear', 'pop'):
+                return getattr(recv, f.attr)(*args, **kwargs)
+            if isinstance(recv, list) and f.attr in ('append', 'extend', 'pop', 'insert', 'copy', 'index', 'count', 'clear', 'sort', 'reverse'):
+                return getattr(recv, f.attr)(*args, **kwargs)
+            if type(recv) is dict and f.attr in ('setdefault', 'update', 'pop', 'copy', 'clear'):
+                return getattr(recv, f.attr)(*args, **kwargs)
+            if isinstance(recv, tuple) and f.attr in ('index', 'count'):
                 return getattr(recv, f.attr)(*args, **kwargs)
             raise Unsupported(f'method call .{f.attr} on {type(recv).__name__}')
         raise Unsupported('call form')
